@@ -23,6 +23,7 @@ NCPU = 16
 # per-property configuration: cases are per worker
 CONF = {
     "C05": dict(level="exploration", workers=16, quick=dict(cases=500, size=60), thorough=dict(cases=12000, size=100)),
+    "C15": dict(level="exploration", workers=16, quick=dict(cases=3000, size=80), thorough=dict(cases=15000, size=100)),
     "C17": dict(level="exploration", workers=16, quick=dict(cases=8000, size=100), thorough=dict(cases=150000, size=150),
                 fuzz=[]),
     "C18": dict(level="exploration", workers=16, quick=dict(cases=12000, size=100), thorough=dict(cases=300000, size=150),
@@ -126,9 +127,7 @@ def main():
     for w, p in procs:
         so, _ = p.communicate()
         for ln in so.splitlines():
-            if ln.startswith("KNOWN-FINDING"):
-                known_lines.append(ln)
-            elif ln.startswith(("FAIL", "UNSTABLE")):
+            if ln.startswith(("FAIL", "UNSTABLE")):
                 out_lines.append(ln)
         try:
             stats.append(json.load(open(f"{rdir}/w{w}.json")))
@@ -188,8 +187,12 @@ def main():
     json.dump(ev, open(tmp, "w"), indent=1)
     os.replace(tmp, f"{V}/evidence/{pid}.json")
 
+    kf = load_known(pid)
+    for sig, hits in sorted(known_hits.items()):
+        print(f"KNOWN-FINDING: property={pid} sig={sig} hits={hits} {kf.get(sig, '')[:240]}")
     for ln in sorted(set(known_lines)):
-        print(ln)
+        if not any(f"sig={sig} " in ln for sig in known_hits):
+            print(ln)
     for ln in out_lines:
         print(ln)
     print(f"SUMMARY property={pid} tier={tier} seed={seed} cases={evaluations} distinct_nontrivial={len(hashes)} "
@@ -204,6 +207,17 @@ def main():
             print(f"VIOLATION property={pid} replay={v.get('replay')} sig={v.get('sig')} {str(v.get('msg',''))[:300]}")
         return 1
     return 0
+
+
+def load_known(pid):
+    out = {}
+    try:
+        for e in json.load(open(f"{V}/known_findings.json"))["findings"]:
+            if e.get("status") == "known" and e.get("property") == pid:
+                out[e["sig"]] = e.get("what", "")
+    except Exception:
+        pass
+    return out
 
 
 def run_fuzz(pid, fz, tier, seed, env, violations):
